@@ -26,6 +26,10 @@ fn summarize<C: Checker<M>>(chk: C) -> (usize, bool, bool) {
 
 fn run_system(out: &mut Out, spec: &SysSpec, bound: usize, sample: bool) {
     let log = new_log();
+    // the crash budget is a setting of the model, whatever the order of the builder calls
+    let order = (spec.tables.len() + spec.max_crashes + spec.init_envs.len()) as u8 % 3;
+    srh::table_actor::BUILDER_ORDER.store(order, std::sync::atomic::Ordering::Relaxed);
+    out.stat(&format!("builder-call-order-{}", order));
     let model: M = spec.model(spec.table_actors::<TMsg>(Some(&log)));
     let sx = spec.to_sx(&[]);
     let g = explore(&model, bound, &tstate_sx, Some(&log));
